@@ -41,11 +41,14 @@ pub struct LTrack {
     /// sync table present?
     pub stss: bool,
     pub edts: Option<u8>, // elst version
+    /// order of the children of stbl: 0 canonical (stsd stts [ctts] [stss] stsc stsz stco); 1 optional tables last,
+    /// after an uninterpreted box; 2 reversed; 3 optional tables first; 4 an uninterpreted box between all children
+    pub stbl_order: u8,
 }
 
 impl LTrack {
     pub fn simple(id: u32, codec: Codec, timescale: u32, samples: Vec<LSample>, chunks: Vec<u32>) -> LTrack {
-        LTrack { id, codec, timescale, samples, chunks, stsc_split: 0, stts_split: 0, ctts_split: 0, co64: false, const_size: false, ctts: None, stss: false, edts: None }
+        LTrack { id, codec, timescale, samples, chunks, stsc_split: 0, stts_split: 0, ctts_split: 0, co64: false, const_size: false, ctts: None, stss: false, edts: None, stbl_order: 0 }
     }
 }
 
@@ -126,8 +129,14 @@ pub struct Expect {
 
 /// (per track) relative chunk offsets in the mdat payload and the mdat payload itself.
 pub fn layout(m: &LMovie) -> (Vec<Vec<u64>>, Vec<u8>) {
+    layout_opt(m, true)
+}
+
+/// As `layout`, optionally without materialising the sample payloads (for tables whose sizes exceed any real file).
+pub fn layout_opt(m: &LMovie, with_payload: bool) -> (Vec<Vec<u64>>, Vec<u8>) {
     let mut rel: Vec<Vec<u64>> = m.tracks.iter().map(|t| vec![0; t.chunks.len()]).collect();
     let mut payload: Vec<u8> = (0..m.mdat_lead).map(|i| 0xE0u8.wrapping_add(i as u8)).collect();
+    let mut pos = payload.len() as u64;
     // first sample index of each chunk
     let firsts: Vec<Vec<usize>> = m
         .tracks
@@ -144,10 +153,13 @@ pub fn layout(m: &LMovie) -> (Vec<Vec<u64>>, Vec<u8>) {
         .collect();
     for &(ti, ci) in m.placement.iter() {
         let t = &m.tracks[ti];
-        rel[ti][ci] = payload.len() as u64;
+        rel[ti][ci] = pos;
         let k0 = firsts[ti][ci];
         for k in k0..k0 + t.chunks[ci] as usize {
-            payload.extend(sample_bytes(t.id, k, t.samples[k].size));
+            if with_payload {
+                payload.extend(sample_bytes(t.id, k, t.samples[k].size));
+            }
+            pos += t.samples[k].size as u64;
         }
     }
     (rel, payload)
@@ -155,7 +167,11 @@ pub fn layout(m: &LMovie) -> (Vec<Vec<u64>>, Vec<u8>) {
 
 /// What every lookup must return, per track, per sample (ids 1..=N).
 pub fn expectations(m: &LMovie) -> Vec<Vec<Expect>> {
-    let (rel, _) = layout(m);
+    expectations_opt(m, true)
+}
+
+pub fn expectations_opt(m: &LMovie, with_payload: bool) -> Vec<Vec<Expect>> {
+    let (rel, _) = layout_opt(m, with_payload);
     m.tracks
         .iter()
         .enumerate()
@@ -169,7 +185,7 @@ pub fn expectations(m: &LMovie) -> Vec<Vec<Expect>> {
                     let s = &t.samples[k];
                     out.push(Expect {
                         rel_offset: off,
-                        bytes: sample_bytes(t.id, k, s.size),
+                        bytes: if with_payload { sample_bytes(t.id, k, s.size) } else { vec![] },
                         start: dts,
                         duration: s.delta,
                         cts: if t.ctts.is_some() { s.cts } else { 0 },
@@ -228,6 +244,31 @@ pub fn stbl_of(t: &LTrack, rel: &[u64]) -> Node {
         kids.push(stsz(0, n as u32, &t.samples.iter().map(|s| s.size).collect::<Vec<_>>()));
     }
     kids.push(chunk_offsets(t.co64, "mdat", rel.to_vec()));
+    let unknown = |i: u8| Node::leaf(b"sbgp", vec![0, 0, 0, 0, b'r', b'o', b'l', b'l', 0, 0, 0, 1, 0, 0, 0, i as u8, 0, 0, 0, 1]);
+    let optional = |n: &Node| &n.cc == b"ctts" || &n.cc == b"stss";
+    match t.stbl_order {
+        1 => {
+            let (opt, mut rest): (Vec<Node>, Vec<Node>) = kids.into_iter().partition(|n| optional(n));
+            rest.push(unknown(1));
+            rest.extend(opt);
+            kids = rest;
+        }
+        2 => kids.reverse(),
+        3 => {
+            let (mut opt, rest): (Vec<Node>, Vec<Node>) = kids.into_iter().partition(|n| optional(n));
+            opt.extend(rest);
+            kids = opt;
+        }
+        4 => {
+            let mut v = vec![unknown(0)];
+            for (i, k) in kids.into_iter().enumerate() {
+                v.push(k);
+                v.push(unknown(i as u8 + 1));
+            }
+            kids = v;
+        }
+        _ => {}
+    }
     Node::kids(b"stbl", kids)
 }
 
@@ -259,7 +300,11 @@ pub fn trak_of(t: &LTrack, movie_ts: u32, rel: &[u64], force_v1: bool) -> Node {
 }
 
 pub fn nodes(m: &LMovie) -> Vec<Node> {
-    let (rel, payload) = layout(m);
+    nodes_opt(m, true)
+}
+
+pub fn nodes_opt(m: &LMovie, with_payload: bool) -> Vec<Node> {
+    let (rel, payload) = layout_opt(m, with_payload);
     let mut moov_kids = vec![];
     let longest = m
         .tracks
